@@ -204,8 +204,11 @@ where
     // Channel to collect results from all attempts
     let (tx, mut rx) = mpsc::channel::<(usize, Result<S::Response, S::Error>)>(max_attempts);
 
-    // Spawn primary request
-    let mut service_clone = service.clone();
+    // Spawn primary request on the instance that was polled ready; hedges are
+    // issued on clones of it.
+    let hedge_template = service.clone();
+    let mut service_clone = service;
+    let service = hedge_template;
     let req_clone = req.clone();
     let tx_clone = tx.clone();
     tokio::spawn(async move {
